@@ -12,7 +12,7 @@ usage: mutaudit.py <mutdir> [--tests] [--jobs N]
 import json, os, subprocess, sys, concurrent.futures, shutil, tempfile, re
 
 VERIF = os.path.dirname(os.path.dirname(os.path.abspath(__file__)))
-BIN = os.path.join(VERIF, 'bin', 'thunderlint')
+BIN = os.environ.get('THUNDERLINT_BIN') or os.path.join(VERIF, 'bin', 'thunderlint')
 REPO = '/repo'
 
 def phase1(m):
